@@ -350,6 +350,37 @@ def d_alloc_size(f, s, R, db):
     return None
 
 
+def d_const_bounds(f, s, R, db):
+    """array[const] on a fixed-size array: bounds assert between two constants."""
+    if s['kind'] == 'assert:bounds':
+        ops = [norm(R.operand(o)) for o in s['term']['ops']]
+        ks = [o for o in ops if o[0] == 'k' and isinstance(o[1], int)]
+        if len(ops) == 2 and len(ks) == 2:
+            ln, idx = ops[0][1], ops[1][1]
+            if idx < ln:
+                return f'constant index {idx} < constant array length {ln}'
+    return None
+
+
+def d_shape_product(f, s, R, db):
+    """self.shape[0] * self.shape[1] (* size_of::<T>()): the cached shape holds columns()/rows() of the wrapped in-memory matrix (R18.3),
+    and columns <= stride, so the product is at most the byte size of an existing allocation (<= isize::MAX)."""
+    if s['kind'] == 'assert:overflow:Mul':
+        def factors(e):
+            if e[0] == 'bin' and e[1].startswith('Mul'):
+                return factors(e[2]) + factors(e[3])
+            return [e]
+        fs = []
+        for o in s['term']['ops']:
+            fs += factors(norm(R.operand(o)))
+        shp = [x for x in fs if m(('idx', ('fld', '_', 'shape'), ('k', '$d')), x) is not None]
+        rest = [x for x in fs if x not in shp]
+        dims = sorted(m(('idx', ('fld', '_', 'shape'), ('k', '$d')), x)['$d'] for x in shp)
+        if dims == [0, 1] and all(x[0] == 'call' and x[1].endswith('mem::size_of') for x in rest) and len(rest) <= 1:
+            return 'bounded-by-allocation: shape[0]*shape[1]*itemsize of the cached (columns, rows) of an in-memory matrix (R18.3) <= its byte size <= isize::MAX'
+    return None
+
+
 def d_row0_guarded(f, s, R, db):
     """matrix()[0] guarded by rows() != 0."""
     if s['kind'] != 'call:generic-index':
@@ -419,7 +450,7 @@ def d_bounded_copy(f, s, R, db):
     return None
 
 
-PY_RULES = [d_pyo3_glue, d_neg_plus_len, d_ensured_some, d_const_cstr, d_alloc_size, d_row0_guarded, d_data_get_summary, d_row_guard, d_first_char,
+PY_RULES = [d_pyo3_glue, d_const_bounds, d_shape_product, d_neg_plus_len, d_ensured_some, d_const_cstr, d_alloc_size, d_row0_guarded, d_data_get_summary, d_row_guard, d_first_char,
             d_bounded_copy, C15.d_symbol_index, C15.d_enumerate_of_same]
 
 
@@ -475,6 +506,64 @@ def r175(db, ctx):
         (ctx.ok if ok == want else ctx.fail)('R17.5', f, f'{name}: to_freq(0.0)', *([[f'{ok} alphabet arm(s)']] if ok == want else [f'to_freq pseudocount is not the constant 0.0 in {want - ok} arm(s)']))
 
 
+# derived caches of the Python classes: (class, cached field) -> the field of the *same object* it must be derived from
+CACHES = {('lightmotif_py::ScoringMatrix', 'distribution'): 'data'}
+
+
+def r177(db, ctx):
+    from lm import prov
+    ctx.rule('R17.7', 'cache discipline: a cached derived field (ScoringMatrix.distribution) is only ever set to None at construction or to a value '
+                      'computed from the data of the very object it is stored in — never copied from / computed from another object')
+    n = 0
+    adts = db.adts if hasattr(db, 'adts') else {}
+    for (cls, fld), srcfld in CACHES.items():
+        for f in db.fns.values():
+            if f.crate != 'lightmotif_py' or f.promoted_of or f.raw.get('derived'):
+                continue
+            R = None
+            # (a) aggregate constructions
+            for blk in f.blocks:
+                if blk['cleanup']:
+                    continue
+                for st in blk['stmts']:
+                    if st['k'] == 'assign' and st['rv']['k'] == 'agg' and st['rv'].get('ak') == 'adt' and st['rv'].get('adt', '') == cls and fld in st['rv'].get('fields', []):
+                        R = R or X.Rec(f)
+                        ops = dict(zip(st['rv']['fields'], [norm(R.operand(o)) for o in st['rv']['ops']]))
+                        v = ops[fld]
+                        n += 1
+                        if v[0] == 'agg' and isinstance(v[1], tuple) and v[1][1].endswith('Option') and v[1][2] in ('None', 0) and not v[2]:
+                            ctx.ok('R17.7', f, f'{cls.rsplit("::", 1)[-1]} {{ {fld}: None }} at construction')
+                        else:
+                            reads, _ = prov.field_reads(f, R, v)
+                            foreign = [r for r in reads if r[1] == fld]
+                            if foreign or not any(r[1] == srcfld for r in reads):
+                                ctx.fail('R17.7', f, f'{fld} at construction', f'new object starts with a non-empty cache {X.show(v, 160)} that is not derived from its own {srcfld}', span=st.get('span'))
+                            else:
+                                ctx.ok('R17.7', f, f'{fld} at construction derived from the constructor data')
+            # (b) later stores into the field
+            R = R or X.Rec(f)
+            for s_ in X.stores(f, R):
+                tg = norm(s_['target'], clone_transparent=True)
+                if not (tg[0] == 'fld' and tg[2] == fld):
+                    continue
+                # the object must be of the class (type of the base local / param is not recovered here; the field name is unique to the class)
+                troot = prov.resolve_root(f, R, tg[1])
+                reads, _ = prov.field_reads(f, R, s_['value'])
+                n += 1
+                foreign = [r for r in reads if r[1] == fld and r[0] != troot]
+                other_data = [r for r in reads if r[1] == srcfld and r[0] != troot]
+                own_data = [r for r in reads if r[1] == srcfld and r[0] == troot]
+                if foreign:
+                    ctx.fail('R17.7', f, f'store into .{fld}', f'the cache of {X.show(troot)} is filled from the cache of another object ({X.show(foreign[0][2], 120)}): '
+                             'the value describes that object\'s data, not this one\'s (stale / wrong p-values after e.g. reverse_complement under a strand-asymmetric background)', span=s_['span'])
+                elif other_data or not own_data:
+                    ctx.fail('R17.7', f, f'store into .{fld}', f'the cached value is not computed from {X.show(troot)}.{srcfld} '
+                             f'(reads: {sorted({X.show(r[2], 60) for r in reads})[:4]})', span=s_['span'])
+                else:
+                    ctx.ok('R17.7', f, f'{X.show(troot)}.{fld} = f({X.show(troot)}.{srcfld})', [X.show(own_data[0][2], 100)])
+    ctx.floor('R17.7', n, 2, 'constructions / stores of cached derived fields (1 None at From, 1 lazy fill)')
+
+
 def run(db, ctx):
     r171(db, ctx)
     r172(db, ctx)
@@ -482,3 +571,4 @@ def run(db, ctx):
     r174(db, ctx)
     r175(db, ctx)
     r176(db, ctx)
+    r177(db, ctx)
